@@ -443,6 +443,167 @@ def layout(ctx: Any) -> List[Ob]:
     return obs
 
 
+def label_walk_obligations(ctx: Any, R: str) -> List[Ob]:
+    """The label walk of the decoder as linear forms in the position `off` and the length byte `length`: a zero byte ends the
+    name and the caller resumes at off + 1; a plain label is the `length` bytes from off + 1, and the walk moves on by
+    1 + length; a pointer is two bytes, target (length & 0x3F) * 256 + the next byte, and the caller resumes at off + 2; the
+    name reader stores the resume position and joins the labels it was handed with dots plus the root dot."""
+    prog = ctx.prog
+    f = prog.func(INC + '._decode_labels_at_offset')
+    pos = f.params[1]
+    obs: List[Ob] = []
+    ldefs = {}
+    from .common import local_defs as _ld2
+
+    ldefs = _ld2(f)
+    # the local that holds the length byte: assigned view[pos] / data[pos]
+    lens_ = [n_ for n_, vs in ldefs.items() if any(v is not None and isinstance(v, ast.Subscript) and norm(v.slice) == pos for v in vs)]
+    if len(lens_) != 1:
+        raise AnalysisError(f'anchor vanished: the length byte of the label walk ({lens_})')
+    ln_ = lens_[0]
+
+    def sym(x: ast.AST) -> Optional[str]:
+        if isinstance(x, ast.Name):
+            return {pos: 'off', ln_: 'length'}.get(x.id, x.id)
+        return None
+
+    env: Dict[str, Any] = {}
+    for n_, vs in ldefs.items():
+        if n_ not in (pos, ln_) and len(vs) == 1 and vs[0] is not None:
+            try:
+                env[n_] = lf.poly(prog, f.module, vs[0], sym, env)
+            except lf.NotLinear:
+                pass
+
+    def P(e: ast.AST) -> Any:
+        try:
+            return lf.poly(prog, f.module, e, sym, env)
+        except lf.NotLinear:
+            return None
+
+    parents: Dict[int, ast.AST] = {}
+    for a in ast.walk(f.node):
+        for ch in ast.iter_child_nodes(a):
+            parents[id(ch)] = a
+
+    def guards(n: ast.AST) -> List[str]:
+        out_ = []
+        while id(n) in parents:
+            par = parents[id(n)]
+            if isinstance(par, ast.If) and n in par.body:
+                out_.append(norm(par.test))
+            n = par
+        return out_
+
+    def cmp_is(test: str, op: str, k: int) -> bool:
+        try:
+            pl, o = lf.comparison(prog, f.module, ast.parse(test, mode='eval').body, sym, env)
+        except (lf.NotLinear, SyntaxError):
+            return False
+        want = {'==': lf.parse_cmp(f'length == {k}'), '<': lf.parse_cmp(f'length < {k}')}[op]
+        return lf.same_cmp((pl, o), want)
+
+    # zero byte
+    zr = [r for r in walk_local_ordered(f.node) if isinstance(r, ast.Return) and r.value is not None and any(cmp_is(g, '==', 0) for g in guards(r))]
+    obs.append(ob(R, f, zr[0].value if zr else 'return off + 1', 'a zero length byte ends the name; the caller resumes behind it (off + 1)', len(zr) == 1 and (P(zr[0].value) == lf.parse_poly('off + 1') or isinstance(zr[0].value, ast.BoolOp) and P(zr[0].value.values[-1]) == lf.parse_poly('off + 1')), f'returns `{norm(zr[0].value)}`' if zr else 'no return under `length == 0`'))
+    # plain label
+    lab_ifs = [n for n in walk_local_ordered(f.node) if isinstance(n, ast.If) and cmp_is(norm(n.test), '<', 0x40)]
+    if len(lab_ifs) != 1:
+        raise AnalysisError('anchor vanished: the plain-label arm (`length < 0x40`) of the label walk')
+    arm = lab_ifs[0]
+    slices = [x for st in arm.body for x in ast.walk(st) if isinstance(x, ast.Subscript) and isinstance(x.slice, ast.Slice) and x.slice.lower is not None and x.slice.upper is not None]
+    okl = len(slices) == 1 and P(slices[0].slice.lower) == lf.parse_poly('off + 1') and P(slices[0].slice.upper) == lf.parse_poly('off + 1 + length')
+    appended = [c for st in arm.body for c in ast.walk(st) if isinstance(c, ast.Call) and call_name(c) == 'append' and isinstance(c.func, ast.Attribute) and norm(c.func.value) == f.params[2] and slices and any(x is slices[0] for x in ast.walk(c))]
+    obs.append(ob(R, f, slices[0] if slices else arm, 'a plain label is the `length` bytes that follow the length byte, appended to the caller\'s label list', okl and len(appended) == 1, f'slice `{norm(slices[0])}`' if slices else 'no slice in the arm'))
+    adv = [st for st in arm.body if (isinstance(st, ast.AugAssign) and isinstance(st.target, ast.Name) and st.target.id == pos) or (isinstance(st, ast.Assign) and any(isinstance(t, ast.Name) and t.id == pos for t in st.targets))]
+    # the advances of the arm, taken in order (one statement or several): together they move the position by 1 + length
+    cur = lf.parse_poly('off')
+    good_adv = bool(adv)
+    for k_, st in enumerate(adv):
+        pv = P(st.value)
+        reads_pos = any(isinstance(x, ast.Name) and x.id == pos for x in ast.walk(st.value))
+        if pv is None:
+            good_adv = False
+        elif isinstance(st, ast.AugAssign) and isinstance(st.op, ast.Add) and not reads_pos:
+            cur = lf.p_add(cur, pv)
+        elif isinstance(st, ast.Assign) and k_ == 0:
+            cur = pv
+        else:
+            good_adv = False
+    good_adv = good_adv and cur == lf.parse_poly('off + 1 + length')
+    ends = isinstance(arm.body[-1], ast.Continue) and adv and arm.body.index(adv[0]) > max([arm.body.index(st) for st in arm.body if slices and any(x is slices[0] for x in ast.walk(st))] or [-1])
+    obs.append(ob(R, f, adv[0] if adv else arm, 'after a plain label the walk moves on by 1 + length and takes the next length byte (the slice is taken before the position moves)', good_adv and bool(ends), f'position after the arm: {lf.p_str(cur)}'))
+    # pointer
+    ptr_defs = [(n_, v) for n_, vs in ldefs.items() for v in vs if v is not None and isinstance(v, ast.BinOp) and isinstance(v.op, (ast.Add, ast.BitOr)) and any(isinstance(x, ast.BinOp) and isinstance(x.op, ast.BitAnd) and prog.try_fold(f.module, x.right) == (True, 0x3F) for x in ast.walk(v))]
+    okp = False
+    whyp = 'no pointer target computed from (length & 0x3F)'
+    if len(ptr_defs) == 1:
+        v = ptr_defs[0][1]
+        hi, lo = v.left, v.right
+        hi_ok = isinstance(hi, ast.BinOp) and ((isinstance(hi.op, ast.Mult) and prog.try_fold(f.module, hi.right) == (True, 256)) or (isinstance(hi.op, ast.LShift) and prog.try_fold(f.module, hi.right) == (True, 8))) and isinstance(hi.left, ast.BinOp) and isinstance(hi.left.op, ast.BitAnd) and norm(hi.left.left) == ln_
+        lo_e = lo
+        if isinstance(lo, ast.Name) and len(ldefs.get(lo.id, [])) == 1 and ldefs[lo.id][0] is not None:
+            lo_e = ldefs[lo.id][0]
+        lo_ok = isinstance(lo_e, ast.Subscript) and P(lo_e.slice) == lf.parse_poly('off + 1')
+        okp = hi_ok and lo_ok
+        whyp = f'target `{norm(v)}`, low byte `{norm(lo_e)}`'
+    obs.append(ob(R, f, ptr_defs[0][1] if ptr_defs else f.name, 'a pointer targets (length & 0x3F) * 256 + the byte that follows the length byte', okp, whyp))
+    tail = [r for r in walk_local_ordered(f.node) if isinstance(r, ast.Return) and r.value is not None and r not in zr]
+    okt = bool(tail) and all(P(r.value) == lf.parse_poly('off + 2') or isinstance(r.value, ast.Name) for r in tail)
+    obs.append(ob(R, f, tail[0].value if tail else 'return off + 2', 'after a pointer the caller resumes behind its two bytes (off + 2, or the position kept for that purpose)', okt, ', '.join(norm(r.value) for r in tail)))
+    # what stands behind a pointer is part of the name: with the target already decoded (memo hit) its labels are appended;
+    # otherwise they are decoded from the target into a fresh list, remembered under the target, and appended -- on every path
+    me_f = f.params[0]
+    lab_p = f.params[2]
+    memo_reads = {norm(c) for c in ast.walk(f.node) if isinstance(c, ast.Call) and isinstance(c.func, ast.Attribute) and c.func.attr == 'get' and self_attr(c.func.value, me_f) == '_name_cache'}
+    ptr_name = ptr_defs[0][0] if len(ptr_defs) == 1 else None
+    if memo_reads and ptr_name:
+        def eff_ptr(node: Any, evl: Any) -> List[Any]:
+            out_ = []
+            for c in fd.node_calls(node, evl):
+                if call_name(c) == f.name:
+                    out_.append(('WALK', norm(c.args[0]) if c.args else '?', norm(c.args[1]) if len(c.args) > 1 else '?'))
+                if call_name(c) == 'extend' and isinstance(c.func, ast.Attribute) and norm(c.func.value) == lab_p:
+                    out_.append(('EXTEND', norm(c.args[0]) if c.args else '?'))
+            if node.kind == 'stmt' and isinstance(node.ast, ast.Assign) and isinstance(node.ast.targets[0], ast.Subscript) and self_attr(node.ast.targets[0].value, me_f) == '_name_cache':
+                out_.append(('REMEMBER', norm(node.ast.value)))
+            return out_
+
+        cfg_f = cfg_of(f.node)
+        ptr_nodes = [n for n in cfg_f.nodes if n.kind == 'stmt' and isinstance(n.ast, ast.Assign) and any(isinstance(t, ast.Name) and t.id == ptr_name for t in n.ast.targets)]
+        for hit in (True, False):
+            atoms_p: Dict[str, Any] = {m_: (['x', 'y'] if hit else None) for m_ in memo_reads}
+            for t in cfg_f.nodes:
+                if t.kind == 'test' and t.ast is not None and ptr_nodes and cfg_f.dominates(ptr_nodes[0], t) and any(isinstance(x, ast.Raise) for s_, lab in t.succ if lab is True for x in ([s_.ast] if s_.ast is not None else [])):
+                    atoms_p[norm(t.ast)] = False  # the rejections of a hostile pointer are C02's; here the pointer is a good one
+            oc_p, und_p = fd.run_paths(prog, f.module, cfg_f, atoms_p, eff_ptr, start=ptr_nodes[0], loop_bound=1) if ptr_nodes else (set(), ['no pointer computation'])
+            seqs_p = {tuple(x for x in t if isinstance(x, tuple) and x[0] in ('WALK', 'EXTEND', 'REMEMBER')) for t in oc_p if any(isinstance(x, tuple) and x[0] == 'ret' for x in t)}
+            lists_p = {x[2] for sq in seqs_p for x in sq if x[0] == 'WALK'}
+            if hit:
+                okh = bool(seqs_p) and all(len(sq) == 1 and sq[0][0] == 'EXTEND' for sq in seqs_p)
+            else:
+                jumps_p = [st for st in walk_local_ordered(f.node) if isinstance(st, ast.Assign) and any(isinstance(t, ast.Name) and t.id == pos for t in st.targets) and norm(st.value) == ptr_name]
+                if jumps_p and not any(call_name(c) == f.name for c in ast.walk(f.node) if isinstance(c, ast.Call)):
+                    okh = True  # iterative form: the walk carries on at the target and the plain-label arm appends what it finds (resume position: see above)
+                else:
+                    okh = bool(seqs_p) and len(lists_p) == 1 and all([x[0] for x in sq] == ['WALK', 'REMEMBER', 'EXTEND'] and sq[0][1] == ptr_name and sq[1][1] == sq[0][2] and sq[2][1] == sq[0][2] for sq in seqs_p)
+            obs.append(ob(R, f, f'pointer, target {"already decoded" if hit else "not decoded before"}', 'the labels behind the pointer are appended to the name' + ('' if hit else ' after being decoded from the target into their own list and remembered under it'), okh, f'effects on the returning paths: {sorted(map(str, seqs_p))[:2]}; undecided {und_p}'))
+    # the walk hands back a position on every path that does not raise (running off the end of the datagram is a raise)
+    cfg_f2 = cfg_of(f.node)
+    bare = [p_ for p_, lab in cfg_f2.exit.pred if lab != 'exc' and not (p_.kind == 'return' and p_.ast is not None and p_.ast.value is not None)]
+    obs.append(ob(R, f, bare[0].ast if bare and bare[0].ast is not None else f.name, 'every way out of the label walk is a returned position or a raise (no falling off the end)', not bare, f'{len(bare)} path(s) reach the end of the function without a value'))
+    # name reader
+    rn = prog.func(INC + '._read_name')
+    rme = rn.params[0]
+    calls = [c for c in walk_local_ordered(rn.node) if isinstance(c, ast.Call) and call_name(c) == '_decode_labels_at_offset']
+    stores = [st for st in walk_local_ordered(rn.node) if isinstance(st, ast.Assign) and self_attr(st.targets[0], rme) == 'offset' and calls and st.value is calls[0]]
+    rdefs = _ld2(rn)
+    first_ok = bool(calls) and (self_attr(calls[0].args[0], rme) == 'offset' or (isinstance(calls[0].args[0], ast.Name) and [self_attr(v, rme) for v in rdefs.get(calls[0].args[0].id, []) if v is not None] == ['offset']))
+    joins = [c for c in walk_local_ordered(rn.node) if isinstance(c, ast.Call) and call_name(c) == 'join' and isinstance(c.func, ast.Attribute) and isinstance(c.func.value, ast.Constant) and c.func.value.value == '.' and calls and len(calls[0].args) > 1 and norm(c.args[0]) == norm(calls[0].args[1])]
+    obs.append(ob(R, rn, calls[0] if calls else '_decode_labels_at_offset', 'the name reader starts the walk at the current offset, stores the position it hands back as the new offset, and joins the labels it collected with dots', len(calls) == 1 and len(stores) == 1 and first_ok and len(joins) == 1, f'stores into offset: {len(stores)}; joins of the collected labels: {len(joins)}'))
+    return obs
+
+
 def resume_position_obligations(ctx: Any, R: str) -> List[Ob]:
     """Where the caller carries on after a name: behind its terminating zero, or behind the FIRST pointer of the name.  The
     label decoder returns that position.  As long as it follows a pointer by calling itself (the result of the inner call
@@ -622,7 +783,38 @@ def prims(ctx: Any) -> List[Ob]:
     rn = inc.methods['_read_name']
     joined = [st for st in walk_local_ordered(rn.node) if isinstance(st, ast.Assign) and isinstance(st.value, ast.BinOp) and isinstance(st.value.op, ast.Add) and isinstance(st.value.left, ast.Call) and call_name(st.value.left) == 'join' and norm(st.value.left.func.value) == "'.'" and norm(st.value.right) == "'.'"]
     obs.append(ob(R, rn, "name = '.'.join(labels) + '.'", 'a decoded name is its labels joined by dots plus the root dot', len(joined) == 1))
+    # the write primitives: each appends exactly one item to the packet data on every path and adds its width to the running
+    # size (1 / 2 / 4 / len(value)); the section adders append the entry they are given to their own section list
+    outc = prog.cls(OUT)
+    for wname, width in (('_write_byte', '1'), ('write_short', '2'), ('_write_int', '4'), ('write_string', None)):
+        w = outc.methods.get(wname)
+        if w is None:
+            raise AnalysisError(f'anchor vanished: DNSOutgoing.{wname}')
+        wme = w.params[0]
+
+        def eff_w(node: Any, evl: Any, wme: str = wme) -> List[Any]:
+            out_ = []
+            for c in node.calls():
+                if call_name(c) == 'append' and isinstance(c.func, ast.Attribute) and self_attr(c.func.value, wme) == 'data':
+                    out_.append('APPEND')
+            if node.kind == 'stmt' and isinstance(node.ast, ast.AugAssign) and isinstance(node.ast.op, ast.Add) and self_attr(node.ast.target, wme) == 'size':
+                out_.append(('SIZE', norm(node.ast.value)))
+            return out_
+
+        oc_w, _ = traces(ctx, w, {}, eff_w, loop_bound=1)
+        seqs_w = {tuple(x for x in strip_ret(t) if x == 'APPEND' or isinstance(x, tuple) and x[0] == 'SIZE') for t in oc_w}
+        want_sz = width if width is not None else f'len({w.params[1]})'
+        obs.append(ob(R, w, f'self.data.append(...); self.size += {want_sz}', f'{wname} appends one item and accounts {want_sz} byte(s), on every path', bool(seqs_w) and all(sorted(map(str, sq)) == sorted(map(str, ('APPEND', ('SIZE', want_sz)))) for sq in seqs_w), f'effects per path: {sorted(map(str, seqs_w))}'))
+    for aname, lst in (('add_question', 'questions'), ('add_authorative_answer', 'authorities'), ('add_additional_answer', 'additionals')):
+        a = outc.methods.get(aname)
+        if a is None:
+            raise AnalysisError(f'anchor vanished: DNSOutgoing.{aname}')
+        ame = a.params[0]
+        oc_a, _ = traces(ctx, a, {}, lambda node, evl, ame=ame, lst=lst, a=a: [('PUT', self_attr(c.func.value, ame), norm(c.args[0])) for c in node.calls() if call_name(c) == 'append' and isinstance(c.func, ast.Attribute) and c.args], loop_bound=1)
+        seqs_a = {tuple(x for x in strip_ret(t) if isinstance(x, tuple) and x[0] == 'PUT') for t in oc_a}
+        obs.append(ob(R, a, f'self.{lst}.append({a.params[1]})', f'{aname} appends the entry it is given to `{lst}` (none lost)', seqs_a == {(('PUT', lst, a.params[1]),)}, f'effects {sorted(map(str, seqs_a))}'))
     obs.extend(resume_position_obligations(ctx, R))
+    obs.extend(label_walk_obligations(ctx, R))
     return obs
 
 
